@@ -34,7 +34,7 @@ def scenarios(tier: str, seed: int) -> list[dict]:
     from harness import qos_gen
     rich = tier == "thorough"
     rng = random.Random(seed * 7919 + (1 if rich else 0))
-    scs = qos_gen.single_caller_grid(rich) + qos_gen.queue_order_scenarios(rich)
+    scs = qos_gen.single_caller_grid(rich) + qos_gen.queue_order_scenarios(rich) + qos_gen.repeat_scenarios(rich)
     n_rand = 40000 if rich else 2500
     for k in range(n_rand):
         scs.append(qos_gen.random_scenario(rng, 1 + (k % 4), rich=True))
